@@ -104,7 +104,8 @@ let finish () =
       if DiffJson.olds segs <> old_lines || DiffJson.news segs <> new_lines then report "script-not-valid" name;
       let running = DiffJson.annotate O O segs = isegs in
       if not running then incr shifted;
-      let model = DiffJson.mismatches_at false isegs in
+      (* the builder counts positions itself (running indices): exactly the function the reconstruction theorem is about *)
+      let model = DiffJson.mismatches false Datatypes.O Datatypes.O segs in
       (match cur.j with
        | None -> if model <> [] then report "json-missing" name
        | Some js ->
